@@ -39,6 +39,9 @@ TRUSTED = [
     "harness/epr.py: InProcConnection decodes the serialized host messages and drives the executor in-process",
 ]
 ASSUMPTIONS = [
+    "every host-side accessor of the result handles is compared with the delivered response, including "
+    "Qubit.remote_entangled_node, for both node placements (local 0 / remote 1 and local 1 / remote 0) and "
+    "falsy values (node id 0, create id 0, sequence number 0, goodness 0, Bell state 0)",
     "response fields are integers of ANY size (value-range classes 0, 1, 2^31-1, 2^31, 2^32-1, 2^32, 5*10^9, "
     "2^63-1 are drawn for goodness, goodness time, sequence number, create id); the model stores unbounded Int. "
     "Observation: qlink-interface types `goodness` as float, but a float stored in a result array makes "
